@@ -40,6 +40,7 @@ func VerifC20_Lifecycle() {
 	s1 := sym("s1")
 	cfg := &config.CRLConfig{WorkDir: "/work", StorageTypeParsed: st, CDPConfig: &config.CDPConfig{CRLFetchModeParsed: config.CRLFetchMode(verifrt.Choose(2))},
 		SignatureValidationModeParsed: config.SignatureValidationModeVerify, UpdateIntervalParsed: 1800e9, CRLUrls: []string{urlB}}
+	rawLikeParsed(cfg)
 	n := verifrt.Param("cycles", 2)
 	for cycle := 0; cycle < n; cycle++ {
 		kind := verifrt.Choose(3) // 0 acceptable, 1 bad signature, 2 origin down
